@@ -67,7 +67,8 @@ Definition ltick (tagged : bool) (lk : bool) (s : kst) (h : list Z) (p : lpc)
   | LAStore ke n d =>
       (lk, mkK n (fupd (knext s) ke LIVE) (fupd (kdtor s) ke d) (bump tagged s ke), ke :: h, LUnlock ke)
   | LDCheck k =>
-      if knext s k =? LIVE then (lk, s, remove1 k h, LDHead k (kdtor s k))
+      if knext s k =? LIVE
+      then (lk, mkK (kfree s) (knext s) (fupd (kdtor s) k 0) (kgen s), remove1 k h, LDHead k (kdtor s k))
       else (lk, s, h, LUnlock ERR)
   | LDHead k f => (lk, mkK (kfree s) (fupd (knext s) k (kfree s)) (kdtor s) (kgen s), h, LDStore k f)
   | LDStore k f => (lk, mkK k (knext s) (kdtor s) (kgen s), h, LUnlock f)
